@@ -433,6 +433,11 @@ func (w *World) trSpecCall(e *SExpr, env *SpecEnv) *Val {
 			gt = types.NewPointer(gt)
 		}
 		return tv(w.typeTag(gt), nil)
+	case "boxRect":
+		a := w.trSpec(args[0], env)
+		s, _ := w.resolveSpecType("geometry", "Rect")
+		_, it := w.resolveSpecType("geometry", "Series")
+		return tv(mk("box_"+mangle(s.String()), SRef, a.T), it)
 	case "unboxRect":
 		a := w.trSpec(args[0], env)
 		s, gt := w.resolveSpecType("geometry", "Rect")
